@@ -298,6 +298,60 @@ def _eval_lbp(case):
 
 # ---------------------------------------------------------------------------------------------- Zernike
 
+def _zernike_weights_tie(im, R, deg, cm, z, scale):
+    from mahotas.features import _zernike
+    from mahotas.center_of_mass import center_of_mass
+    c0, c1 = cm if cm is not None else center_of_mass(im)
+    Y, X = np.mgrid[:im.shape[0], :im.shape[1]]
+    P = im.ravel()
+
+    def rescale(C, centre):
+        Cn = C.astype(np.double)
+        Cn -= centre
+        Cn /= R
+        return Cn.ravel()
+    Yn, Xn = rescale(Y, c0), rescale(X, c1)
+    Dn = Xn ** 2
+    Dn += Yn ** 2
+    np.sqrt(Dn, Dn)
+    np.maximum(Dn, 1e-9, out=Dn)
+    disc = (Dn <= 1.)
+    k = disc & (P > 0)
+    out = []
+    lines = [f"c19 kind=zfrac disc={gen.enc_arr(disc.astype(int).tolist())} data={core.fmt_floats(P)}",
+             f"c19 kind=zfrac disc={gen.enc_arr(disc.astype(int).tolist())} data={core.fmt_floats(P * scale)}"]
+    d0, d1 = core.drive(lines)
+    w, ws = core.floats(d0['frac']), core.floats(d1['frac'])
+    if w.shape != (int(k.sum()),) or ws.shape != w.shape:
+        return [dict(kind='model', key='zernike:weights-selection', detail=dict(selected=int(k.sum()), model=int(w.size)))]
+    if not k.any():
+        return out
+    ref = np.array(P[k], np.double)
+    ref /= ref.sum()
+    if not np.all(np.abs(w - ref) <= 1e-12 * np.maximum(1.0, np.abs(ref))):
+        out.append(dict(kind='model', key='zernike:weights-model', detail=dict(maxdiff=float(np.max(np.abs(w - ref))))))
+    # scale invariance of the model's weights at Float (the theorem is exact over ordered fields; rounding only here)
+    if not np.all(np.abs(ws - w) <= 1e-12 * np.maximum(1.0, np.abs(w))):
+        out.append(dict(kind='model', key='zernike:weights-scale', detail=dict(maxdiff=float(np.max(np.abs(ws - w))))))
+    Dk = Dn[k]
+    An = np.empty(Dk.shape, np.complex128)
+    An.real = (Xn[k] / Dk)
+    An.imag = (Yn[k] / Dk)
+    Ans = [An ** p for p in range(2, deg + 2)]
+    Ans.insert(0, An)
+    Ans.insert(0, np.ones_like(An))
+    zv = []
+    for n in range(deg + 1):
+        for l in range(n + 1):
+            if (n - l) % 2 == 0:
+                zv.append(abs(_zernike.znl(Dk, Ans[l], np.ascontiguousarray(w), n, l)))
+    zv = np.array(zv)
+    if zv.shape != z.shape or not float(np.max(np.abs(zv - z))) <= 1e-10 * max(1.0, float(np.max(np.abs(z)))):
+        out.append(dict(kind='model', key='zernike:weights-through-znl', detail=dict(
+            maxdiff=float(np.max(np.abs(zv - z))) if zv.shape == z.shape else None)))
+    return out
+
+
 def _eval_zernike(case):
     import mahotas.features as mf
     im = np.array(case['data'], dtype=np.float64).reshape(case['shape'])
@@ -322,6 +376,11 @@ def _eval_zernike(case):
                     findings.append(dict(kind='property', key='zernike:rot90', detail=dict(
                         k=k, maxdiff=float(np.max(np.abs(zr - z))) if zr.shape == z.shape else None, z=z.tolist()[:6], zrot=zr.tolist()[:6])))
                     break
+        # ---- the normalisation step (Lean zernikeFrac; C19_zernike_scale_invariance is about it): the grid is rebuilt with
+        # the very numpy statements of zernike.py (same mask bit for bit), the weights come from the Lean Float instance,
+        # and the REAL kernel _zernike.znl fed with them must reproduce the real zernike_moments
+        f = _zernike_weights_tie(im, R, deg, cm, z, case['scale'])
+        findings.extend(f)
         s = case['scale']
         zs = np.asarray(mf.zernike_moments(im * s, R, deg, cm=cm))
         if zs.shape != z.shape or not float(np.max(np.abs(zs - z))) <= tol:
